@@ -74,16 +74,24 @@ def run(res):
                     dec(i.split("|")[0])[:300], dec(m.split("|")[4])[:200]), {"case": c.split("\t"), "impl": i, "model": m}, no_input=True)
     results = behave.get_results(res.tier, res.seed, "behave")
     subsets = behave.get_results(res.tier, res.seed, "behave_subsets")
+    matrix = behave.get_results(res.tier, res.seed, "behave_matrix")
     n1, nt1, f1 = check_results(res, results, "random history")
     n2, nt2, f2 = check_results(res, subsets, "exhaustive leaf subsets")
+    n3, nt3, f3 = check_results(res, matrix, "expression shape x binding context matrix")
     if not ok:
-        res.violation(what, {"obligation": "Properties/C06.v"}, no_input=(f1 + f2 == 0))
+        res.violation(what, {"obligation": "Properties/C06.v"}, no_input=(f1 + f2 + f3 == 0))
+    if f1 + f2 + f3 > 0:
+        for v in res.violations:
+            v["no_input"] = False
     res.notes["guard_text_cases"] = rt["n"]
-    res.cov["evaluations"] = n1 + n2 + rt["n"]
-    res.cov["distinct_nontrivial"] = nt1 + nt2
+    res.notes["matrix_steps"] = n3
+    res.cov["evaluations"] = n1 + n2 + n3 + rt["n"]
+    res.cov["distinct_nontrivial"] = nt1 + nt2 + nt3
     res.cov["rule"] = ("each evaluation = one update step compared with a fresh creation; random: generated templates (all element "
                        "kinds) x histories of 1-6 steps x U in {exact, coarsened to 1 or 2 segments, true}; exhaustive: 9 small "
-                       "templates x all 63 non-empty subsets of 6 leaf paths x 2-3 variants; non-trivial = the update changed the tree")
+                       "templates x all 63 non-empty subsets of 6 leaf paths x 2-3 variants; matrix: 27 expression shapes (temporaries, "
+                       "non-l-value lists) x every binding context (attribute families, text, if, for, template data, slot) x 2 data "
+                       "configurations x 18 single-path steps with exact U; non-trivial = the update changed the tree")
     res.cov["samples"] = [{"src": r["job"]["src"][:200], "U": r["job"]["trees"][:1]} for r in results[:3]] + \
                          [{"src": r["job"]["src"][:120], "U": r["job"]["trees"][:1]} for r in subsets[:2]]
     res.notes.update({"random_steps": n1, "subset_steps": n2, "feature_histogram": behave.feature_histogram(results)})
